@@ -130,6 +130,7 @@ impl Cfg { pub fn want(&self, p: &str) -> bool { self.props.iter().any(|x| x == 
 
 /// emit one case: CASE / IMPL lines plus the oracle verdicts requested
 pub fn emit(out: &mut Out, cfg: &Cfg, pairs: &[Pair]) {
+    if !out.begin() { return; }
     let rr = ref_run(pairs);
     if rr.occurs { out.stat("skipped_occurs", 1); return; }
     let id = out.case(&enc_case(pairs));
